@@ -300,6 +300,66 @@ def gen_mq(rng: random.Random, tier: str) -> dict:
             "ops": ops, "reacts": reacts}
 
 
+def gen_mq_life(rng: random.Random, tier: str) -> dict:
+    """acknowledgements (and rejects / timeouts) arriving at every point of a message's life cycle.
+
+    Each of 1–4 messages gets its own time slot: publish, poll, then one *detour* after the consumer has the
+    message — nothing (still in flight), a visibility timeout (back in the pending queue, redelivery event due
+    `redelay` later), a reject with requeue, a reject/timeout at the limit (dead-lettered) — and then the
+    acknowledgement placed before / exactly at / after the instant the redelivery event is due, before or after
+    the next poll, optionally twice, optionally with a second timeout in between; polls keep coming afterwards so a
+    message that is still stored would be handed out again."""
+    ncons = rng.choice([1, 1, 2])
+    lat_ns = rng.choice([0, 1_000_000, 10_000_000])
+    mx = rng.choice([0, 1, 2, 3, 3])
+    redelay = rng.choice([0.5, 1.0, 2.0])
+    rd = eff_ns(redelay)
+    slot = 4 * rd + 20 * (lat_ns + PUB_NS) + 10**9
+    ops = [[0, "sub", c] for c in range(ncons)]
+    nmsg = rng.choice([1, 1, 2, 3] if tier == "quick" else [1, 2, 3, 4])
+    burst = rng.random() < 0.3           # all messages published up front: polls of one slot reach later messages
+    for k in range(nmsg):
+        t = k * slot + 1000
+        ops.append([0 + k if burst else t, "pub"])
+        t += PUB_NS * rng.choice([0, 1, 2])
+        ops.append([t, "poll"])
+        t_recv = t + lat_ns
+        t = t_recv + rng.choice([0, 1, 1000, lat_ns + 1])       # the consumer works on it
+        detour = rng.choice(["flight", "tmo", "tmo", "tmo", "tmo", "requeue", "dead", "tmo2"])
+        due = None
+        if detour in ("tmo", "tmo2"):
+            ops.append([t, "tmo", k])
+            due = t + rd                                          # the redelivery event (below the limit)
+            if detour == "tmo2":
+                ops.append([t + rng.choice([0, 1, rd // 2]), "tmo", k])
+        elif detour == "requeue":
+            ops.append([t, "rej", k, 1])
+        elif detour == "dead":
+            ops.append([t, "rej", k, 0])
+        # where the (late) acknowledgement lands
+        if due is not None:
+            t_ack = rng.choice([t, t + 1, t + rd // 2, due - 1, due, due + 1, due + lat_ns, due + lat_ns + 1, due + rd])
+        else:
+            t_ack = t + rng.choice([0, 1, 1000, rd])
+        if rng.random() < 0.35:
+            ops.append([rng.choice([t_ack - 1, t_ack, t_ack + 1]), "poll"])   # a poll racing with the ack
+        who = k if rng.random() < 0.92 else rng.choice([UNKNOWN, max(0, k - 1), k + 1])
+        if rng.random() < 0.9:
+            ops.append([t_ack, "ack", who])
+        if rng.random() < 0.2:
+            ops.append([t_ack + rng.choice([0, 1, rd]), "ack", who])           # acknowledged twice
+        if rng.random() < 0.25:
+            ops.append([t_ack + rng.choice([1, rd]), rng.choice(["tmo", "rej"]), k, 1])
+        # afterwards: polls (and whatever redelivery events are in the heap) must not bring it back
+        for j in range(rng.choice([1, 2, 3])):
+            ops.append([max(t_ack, due or 0) + (j + 1) * rng.choice([1, lat_ns + 1, rd]), "poll"])
+    ops = [op[:3] + [1] if op[1] == "rej" and len(op) < 4 else op for op in ops]
+    ops.sort(key=lambda o: o[0])
+    reacts = [rng.choice(["none", "none", "none", "ack", "tmo", "rej1"]) for _ in range(rng.choice([0, 0, 4]))]
+    return {"family": "mq", "ncons": ncons, "lat_ns": lat_ns, "max": mx, "cap": None, "redelay_s": redelay,
+            "ops": ops, "reacts": reacts}
+
+
 def mq_cfg(case, variant):
     lat = eff_ns(case["lat_ns"] / 1e9)
     cap = "-" if case.get("cap") is None else str(case["cap"])
@@ -815,7 +875,10 @@ class C19(core.Property):
     case_timeout_s = 20
     rule = ("family mq (5/10): ≤45 timed publish/poll/ack/reject/timeout/subscribe operations plus per-receipt consumer "
             "reactions through a real Simulation (1–3 consumers, latency 0–290 ms, limit 0–3, capacity none/1–3); non-trivial "
-            "when at least one delivery reached a consumer. family assign (2/10): sequences of assign() calls on one strategy "
+            "when at least one delivery reached a consumer; 30 % of the mq cases are life-cycle scripts: per message publish, poll, "
+            "a detour (still in flight / visibility timeout / double timeout / reject-requeue / dead-letter) and then the "
+            "acknowledgement placed before, at and after the instant the redelivery event is due (±1 ns, ±latency), racing polls, "
+            "double acks, acks of neighbouring or unknown ids, polls afterwards. family assign (2/10): sequences of assign() calls on one strategy "
             "object (0–8 partitions, ≤6 consumers, shuffled inputs); non-trivial with ≥2 partitions and ≥2 consumers; thorough "
             "tier first enumerates every membership of ≤5 consumers × ≤8 partitions for the three strategies, every ordered pair "
             "(5 consumers) and triple (4 consumers) of memberships for sticky. family stream (2/10): ≤36 append/read/join/leave/"
@@ -841,6 +904,10 @@ class C19(core.Property):
         "a DeadLetterQueue without capacity/retention is configured (reject(requeue=False) without a DLQ discards by the API's own definition)",
         "first-delivery order is judged until a reject(requeue=True) of a never-delivered message (that call moves it behind later messages by definition)",
         "'no delivery after ack' is about deliveries that START after the acknowledgement; one already in its latency may still arrive",
+        "an acknowledgement is the consumer's acknowledge(k) call for a published id, wherever the message is in its life cycle "
+        "(in flight, back in pending after a timeout, requeued, dead-lettered): after the call no delivery of k may start, and if the "
+        "queue still owed k (published, never acknowledged, not dead-lettered — judged from the trace alone) the acknowledged counter "
+        "moves by one",
         "assignment strategies: consumer names and partition ids are duplicate-free (what ConsumerGroup passes)",
         "stream/topic times are on a 0.5 s / integer-ns grid so that the code's float seconds are exact",
         "read(max_records=0): the clause 'the first min(m, count) records' is judged for m ≥ 1; for m = 0 the code hands out one "
@@ -880,7 +947,7 @@ class C19(core.Property):
         i = (i // 20) * base + slot
         k = i % 10
         if k < 5:
-            return gen_mq(rng, tier)
+            return gen_mq_life(rng, tier) if rng.random() < 0.3 else gen_mq(rng, tier)
         if k < 7:
             return gen_assign(rng, tier)
         if k < 9:
@@ -1065,6 +1132,8 @@ THEOREMS = [
     "HappyModel.C19.Props.first_deliveries_in_publish_order",
     "HappyModel.C19.Props.redelivery_limit_to_dlq",
     "HappyModel.C19.Props.no_delivery_after_ack",
+    "HappyModel.C19.Props.ack_is_final",
+    "HappyModel.C19.Props.ack_of_owed_message_takes_effect",
     "HappyModel.C19.Props.delivery_reaches_consumer",
     "HappyModel.C19.Props.legacy_stale_stamp_witness",
     "HappyModel.C19.Props.legacy_ghost_pending_witness",
